@@ -433,6 +433,10 @@ func (self *visitorUserNode) OnObjectBegin(capacity int) error {
 				return err
 			}
 		} else {
+			// NOTICE: the keys of the object are looked up in the field's message descriptor
+			if fieldDesc.Message() == nil {
+				return newError(meta.ErrDismatchType, fmt.Sprintf("field '%s' is neither a message nor a map", fieldDesc.Name()), nil)
+			}
 			// case Message, encode Tag、PrefixLen, push MessageDesc、PrefixLen
 			if err = self.p.AppendTag(fieldDesc.Number(), proto.BytesType); err != nil {
 				return meta.NewError(meta.ErrWrite, "append prefix tag failed", nil)
